@@ -9167,4 +9167,285 @@ example : noSlashSegList blockDefs.tops = true ∧ anyOptParent optParent.tops =
     anyInnerOptTuple optInner.tops = true ∧
     (noSlashSegList slashParent.tops = false ∧ ¬ SegmentAligned slashParent ['/', 'a']) := by decide
 
+/-! ## `.ssr_mode(..)`: the modes never change the table's (method, path) set
+
+`RouteM` = a definition tree with a mode on every route; `RouteM.genM` = `generate_routes` with all four
+fields of `GeneratedRouteData`.  `C14_ssr_mode_path_independent`: the segment lists of the generated table
+are those of the mode-free tree (`RouteM.erase`, what every other theorem of this file is about) and
+every entry's methods are `{Get}` — whatever modes are set, at whatever level.
+`C14_ssr_mode_is_first_strictest`: the mode of an entry is the first strictest mode on its chain (the
+parent's on a tie — also between two `Static`), its regeneration fns are the chain's in order. -/
+
+theorem eraseList_isEmpty (cs : List RouteM) : (eraseList cs).isEmpty = cs.isEmpty := by
+  cases cs <;> rfl
+
+theorem combineAll_segments (a : List FSeg) (m : Mode) (l : List GenRoute) :
+    (combineAll a m l).map (·.segments) = prefixAll a (l.map (·.segments)) := by
+  induction l with
+  | nil => rfl
+  | cons c cs ih => simp only [combineAll, List.map_cons, prefixAll, ih, combine]
+
+mutual
+theorem genM_segments : (r : RouteM) → r.genM.map (·.segments) = r.erase.gen
+  | .mk segs mode children => by
+    unfold RouteM.genM RouteM.erase Route.gen
+    rw [eraseList_isEmpty]
+    cases h : children.isEmpty
+    · simp only [Bool.false_eq_true, if_false]
+      rw [combineAll_segments, genMList_segments children]
+    · simp only [if_true, List.map_cons, List.map_nil]
+theorem genMList_segments : (cs : List RouteM) → (genMList cs).map (·.segments) = genList (eraseList cs)
+  | [] => by simp only [genMList, eraseList, genList, List.map_nil]
+  | c :: cs => by
+    simp only [genMList, eraseList, genList, List.map_append, genM_segments c, genMList_segments cs]
+end
+
+theorem combineAll_methods (a : List FSeg) (m : Mode) (l : List GenRoute)
+    (h : ∀ g ∈ l, g.methods = [.get]) : ∀ g ∈ combineAll a m l, g.methods = [.get] := by
+  induction l with
+  | nil => intro g hg; cases hg
+  | cons c cs ih =>
+    intro g hg
+    simp only [combineAll, List.mem_cons] at hg
+    cases hg with
+    | inl e =>
+      subst e
+      have hc := h c (List.mem_cons_self ..)
+      simp only [combine, hc]
+      decide
+    | inr hg => exact ih (fun g hg => h g (List.mem_cons_of_mem _ hg)) g hg
+
+mutual
+theorem genM_methods : (r : RouteM) → ∀ g ∈ r.genM, g.methods = [.get]
+  | .mk segs mode children => by
+    unfold RouteM.genM
+    cases h : children.isEmpty
+    · simp only [Bool.false_eq_true, if_false]
+      exact combineAll_methods _ _ _ (genMList_methods children)
+    · simp only [if_true, List.mem_singleton]
+      intro g hg
+      subst hg
+      rfl
+theorem genMList_methods : (cs : List RouteM) → ∀ g ∈ genMList cs, g.methods = [.get]
+  | [] => by intro g hg; simp only [genMList] at hg; cases hg
+  | c :: cs => by
+    intro g hg
+    simp only [genMList, List.mem_append] at hg
+    cases hg with
+    | inl hg => exact genM_methods c g hg
+    | inr hg => exact genMList_methods cs g hg
+end
+
+theorem map_pair_of_methods (l : List GenRoute) (h : ∀ g ∈ l, g.methods = [.get]) :
+    l.map (fun g => (g.methods, g.segments)) = (l.map (·.segments)).map fun s => ([Method.get], s) := by
+  induction l with
+  | nil => rfl
+  | cons c cs ih =>
+    simp only [List.map_cons, h c (List.mem_cons_self ..), ih (fun g hg => h g (List.mem_cons_of_mem _ hg))]
+
+/-- The modes never change the (method, path) set of the generated table:
+* the segment lists generated for a tree with modes are those of its mode-free erasure, entry by entry
+  (so nothing — in particular no parent prefix — is lost or added for any combination of modes);
+* the registered table (base included) is `flatRoutes` of the erasure, the table of every matching theorem;
+* every entry's methods are `{Get}`;
+* two trees that differ only in their modes generate the same (methods, path) list. -/
+theorem C14_ssr_mode_path_independent :
+    (∀ r : RouteM, r.genM.map (·.segments) = r.erase.gen) ∧
+    (∀ d : DefsM, (flatRoutesM d).map (·.segments) = flatRoutes d.erase) ∧
+    (∀ (r : RouteM) (g : GenRoute), g ∈ r.genM → g.methods = [.get]) ∧
+    (∀ d d' : DefsM, d.erase = d'.erase →
+      (flatRoutesM d).map (fun g => (g.methods, g.segments)) =
+      (flatRoutesM d').map (fun g => (g.methods, g.segments))) := by
+  have hflat : ∀ d : DefsM, (flatRoutesM d).map (·.segments) = flatRoutes d.erase := by
+    intro d
+    unfold flatRoutesM flatRoutes DefsM.erase
+    rw [← genMList_segments d.tops]
+    simp only [List.map_map]
+    rfl
+  have hmeth : ∀ d : DefsM, ∀ g ∈ flatRoutesM d, g.methods = [.get] := by
+    intro d g hg
+    unfold flatRoutesM at hg
+    simp only [List.mem_map] at hg
+    cases hg with
+    | intro g0 h0 =>
+      rw [← h0.2]
+      exact genMList_methods d.tops g0 h0.1
+  refine ⟨genM_segments, hflat, genM_methods, ?_⟩
+  intro d d' he
+  rw [map_pair_of_methods _ (hmeth d), map_pair_of_methods _ (hmeth d'), hflat, hflat, he]
+
+/-! ### propagation -/
+
+theorem maxRank_ge (t : List Mode) : ∀ m ∈ t, m.rank ≤ maxRank t := by
+  induction t with
+  | nil => intro m hm; cases hm
+  | cons a as ih =>
+    intro m hm
+    simp only [maxRank]
+    cases hm with
+    | head => exact Nat.le_max_left ..
+    | tail _ hm => exact Nat.le_trans (ih m hm) (Nat.le_max_right ..)
+
+theorem find_strictest_some (t : List Mode) (h : t ≠ []) :
+    ∃ m, (t.find? fun m => m.rank == maxRank t) = some m := by
+  -- some element attains the maximum
+  have hex : ∀ t : List Mode, t ≠ [] → ∃ m ∈ t, m.rank = maxRank t := by
+    intro t
+    induction t with
+    | nil => intro h; exact absurd rfl h
+    | cons a as ih =>
+      intro _
+      cases as with
+      | nil => exact ⟨a, List.mem_cons_self .., by simp only [maxRank]; exact (Nat.max_eq_left (Nat.zero_le _)).symm⟩
+      | cons b bs =>
+        cases ih (by intro h; cases h) with
+        | intro m hm =>
+          by_cases hc : maxRank (b :: bs) ≤ a.rank
+          · exact ⟨a, List.mem_cons_self .., by
+              show a.rank = Nat.max a.rank (maxRank (b :: bs))
+              exact (Nat.max_eq_left hc).symm⟩
+          · exact ⟨m, List.mem_cons_of_mem _ hm.1, by
+              show m.rank = Nat.max a.rank (maxRank (b :: bs))
+              rw [hm.2]
+              exact (Nat.max_eq_right (by omega)).symm⟩
+  cases hex t h with
+  | intro m hm =>
+    cases hf : t.find? fun m => m.rank == maxRank t with
+    | some x => exact ⟨x, rfl⟩
+    | none =>
+      rw [List.find?_eq_none] at hf
+      have := hf m hm.1
+      simp only [hm.2, beq_self_eq_true, not_true_eq_false] at this
+
+/-- `firstStrictest` obeys the recursion of `generate_routes`: the parent's mode unless the rest of the
+chain is strictly stricter -/
+theorem firstStrictest_cons (m : Mode) (t : List Mode) (h : t ≠ []) :
+    firstStrictest (m :: t) = pickMode m (firstStrictest t) := by
+  cases find_strictest_some t h with
+  | intro x hx =>
+    have hxr : x.rank = maxRank t := by
+      have := List.find?_some hx
+      simpa using this
+    unfold firstStrictest pickMode
+    rw [hx]
+    simp only [Option.getD_some, maxRank, List.find?_cons]
+    by_cases hc : x.rank > m.rank
+    · have hmax : Nat.max m.rank (maxRank t) = maxRank t := Nat.max_eq_right (by omega)
+      have hne : (m.rank == maxRank t) = false := by
+        simp only [beq_eq_false_iff_ne, ne_eq]; omega
+      simp only [hmax, hne, hx, Option.getD_some, hc, if_true]
+    · have hmax : Nat.max m.rank (maxRank t) = m.rank := Nat.max_eq_left (by omega)
+      simp only [hmax, beq_self_eq_true, Option.getD_some, hc, if_false]
+
+theorem firstStrictest_single (m : Mode) : firstStrictest [m] = m := by
+  unfold firstStrictest
+  simp only [maxRank, List.find?_cons]
+  have : Nat.max m.rank 0 = m.rank := Nat.max_eq_left (Nat.zero_le _)
+  simp only [this, beq_self_eq_true, Option.getD_some]
+
+theorem combineAll_modes (a : List FSeg) (m : Mode) (l : List GenRoute) (ts : List (List Mode))
+    (hne : ∀ t ∈ ts, t ≠ [])
+    (h : l.map (fun g => (g.mode, g.regen)) = ts.map fun t => (firstStrictest t, trailRegen t)) :
+    (combineAll a m l).map (fun g => (g.mode, g.regen)) =
+      (consAll m ts).map fun t => (firstStrictest t, trailRegen t) := by
+  induction l generalizing ts with
+  | nil =>
+    cases ts with
+    | nil => rfl
+    | cons t ts => simp only [List.map_nil, List.map_cons] at h; cases h
+  | cons c cs ih =>
+    cases ts with
+    | nil => simp only [List.map_nil, List.map_cons] at h; cases h
+    | cons t ts =>
+      simp only [List.map_cons, List.cons.injEq, Prod.mk.injEq] at h
+      simp only [combineAll, consAll, List.map_cons, combine, trailRegen,
+        firstStrictest_cons m t (hne t (List.mem_cons_self ..)), h.1.1, h.1.2,
+        ih ts (fun t ht => hne t (List.mem_cons_of_mem _ ht)) h.2]
+
+theorem consAll_ne (m : Mode) (ts : List (List Mode)) : ∀ t ∈ consAll m ts, t ≠ [] := by
+  induction ts with
+  | nil => intro t ht; cases ht
+  | cons a as ih =>
+    intro t ht
+    simp only [consAll, List.mem_cons] at ht
+    cases ht with
+    | inl e => subst e; intro h; cases h
+    | inr ht => exact ih t ht
+
+mutual
+theorem trails_ne : (r : RouteM) → ∀ t ∈ r.trails, t ≠ []
+  | .mk segs mode children => by
+    unfold RouteM.trails
+    cases h : children.isEmpty
+    · simp only [Bool.false_eq_true, if_false]
+      exact consAll_ne _ _
+    · simp only [if_true, List.mem_singleton]
+      intro t ht; subst ht; intro h; cases h
+theorem trailsList_ne : (cs : List RouteM) → ∀ t ∈ trailsList cs, t ≠ []
+  | [] => by intro t ht; simp only [trailsList] at ht; cases ht
+  | c :: cs => by
+    intro t ht
+    simp only [trailsList, List.mem_append] at ht
+    cases ht with
+    | inl ht => exact trails_ne c t ht
+    | inr ht => exact trailsList_ne cs t ht
+end
+
+mutual
+theorem genM_modes : (r : RouteM) →
+    r.genM.map (fun g => (g.mode, g.regen)) = r.trails.map fun t => (firstStrictest t, trailRegen t)
+  | .mk segs mode children => by
+    unfold RouteM.genM RouteM.trails
+    cases h : children.isEmpty
+    · simp only [Bool.false_eq_true, if_false]
+      exact combineAll_modes _ _ _ _ (trailsList_ne children) (genMList_modes children)
+    · simp only [if_true, List.map_cons, List.map_nil, firstStrictest_single, trailRegen, List.append_nil]
+theorem genMList_modes : (cs : List RouteM) →
+    (genMList cs).map (fun g => (g.mode, g.regen)) = (trailsList cs).map fun t => (firstStrictest t, trailRegen t)
+  | [] => by simp only [genMList, trailsList, List.map_nil]
+  | c :: cs => by
+    simp only [genMList, trailsList, List.map_append, genM_modes c, genMList_modes cs]
+end
+
+/-- Mode propagation: entry by entry, the mode of a generated route is the FIRST strictest mode on its
+root-to-leaf chain (so a stricter child/grandchild wins, and on a tie — two `Static` included — the
+ancestor's is kept), and its regeneration fns are those of the chain's `Static` routes, root first.
+In particular the entry is as strict as every route on its chain. -/
+theorem C14_ssr_mode_is_first_strictest :
+    (∀ r : RouteM, r.genM.map (fun g => (g.mode, g.regen)) =
+      r.trails.map fun t => (firstStrictest t, trailRegen t)) ∧
+    (∀ (parent child : Mode), pickMode parent child = if child.rank > parent.rank then child else parent) ∧
+    (∀ (t : List Mode) (m : Mode), m ∈ t → m.rank ≤ (firstStrictest t).rank) := by
+  refine ⟨genM_modes, fun _ _ => rfl, ?_⟩
+  intro t m hm
+  have hne : t ≠ [] := by intro h; subst h; cases hm
+  cases find_strictest_some t hne with
+  | intro x hx =>
+    have hxr : x.rank = maxRank t := by
+      have := List.find?_some hx
+      simpa using this
+    unfold firstStrictest
+    rw [hx, Option.getD_some, hxr]
+    exact maxRank_ge t m hm
+
+-- non-vacuity: the seeded shape — `/blog` (default mode) with a stricter child `post/:id`; a grandchild
+-- stricter than both; Static over Static keeps the ancestor's StaticRoute; the prefix is always there
+def blogM (pm cm : Mode) : RouteM :=
+  .mk (.st ['b', 'l', 'o', 'g']) pm [.mk (.tup [.st ['p', 'o', 's', 't'], .param ['i', 'd']]) cm []]
+
+example : (blogM .outOfOrder .async).genM =
+      [⟨[.st ['b', 'l', 'o', 'g'], .st ['p', 'o', 's', 't'], .param ['i', 'd']], .async, [.get], []⟩] ∧
+    (blogM .async .inOrder).genM =
+      [⟨[.st ['b', 'l', 'o', 'g'], .st ['p', 'o', 's', 't'], .param ['i', 'd']], .async, [.get], []⟩] ∧
+    (blogM (.static 0 true) (.static 1 true)).genM =
+      [⟨[.st ['b', 'l', 'o', 'g'], .st ['p', 'o', 's', 't'], .param ['i', 'd']], .static 0 true, [.get], [0, 1]⟩] ∧
+    (RouteM.mk (.st ['a']) .inOrder [.mk (.st ['b']) .outOfOrder [.mk (.param ['p']) (.static 2 true) [],
+        .mk (.st ['c']) .partiallyBlocked []], .mk (.opt ['o']) .async []]).genM =
+      [⟨[.st ['a'], .st ['b'], .param ['p']], .static 2 true, [.get], [2]⟩,
+       ⟨[.st ['a'], .st ['b'], .st ['c']], .inOrder, [.get], []⟩,
+       ⟨[.st ['a'], .opt ['o']], .async, [.get], []⟩] ∧
+    firstStrictest [.inOrder, .static 1 false, .async, .static 3 true] = .static 1 false := by decide
+
+example : (blogM .outOfOrder (.static 1 false)).erase = (blogM .async .inOrder).erase := rfl
+
 end Leptos.Router
